@@ -454,9 +454,11 @@ def run(ctx):
         ctx.exhaustive = True
         # 3. non-vacuity: a registry in which one keyword belongs to two classes must be refuted
         bad = [dict(c) for c in reg]
-        for c in bad:
-            if c['name'] == 'NPoint':
-                c['kw'] = sorted(c['kw'] + ['isothermal'])
+        victim = [row for row in sorted(table[0], key=lambda d: (d['kind'], d['sel'])) if len(row['cands']) == 1 and
+                  ('%s:%s' % (row['kind'], row['sel'])) not in waived and
+                  [c for c in reg if c['kind'] == row['kind'] and c['name'] != row['cands'][0]] and row['kind'] != 'prior'][0]
+        other = [c for c in bad if c['kind'] == victim['kind'] and c['name'] != victim['cands'][0]][0]
+        other['kw'] = sorted(other['kw'] + [victim['sel'].lower() if victim['kind'] != 'contribution' else victim['sel']])
         sd2 = make_spec_dir(FX.gen_reg_module(bad, mix, entries, doc, waived=waived, waived_keys=waived_keys))
         try:
             try:
